@@ -160,6 +160,7 @@ class Ctx:
         self.lens = False
         self.mod = None
         self.poison = frozenset()   # lens-mode: reference variables that may be stale on the current control-flow path
+        self.allocs = 0             # number of syntactic sites in the body that can allocate on the heap (own sites + those of callees)
         self.risky = set()          # integer variables that come from the CALLER (parameters, payloads of Index / Bound / Range values) or are
                                     # computed from one: they can be anywhere in 0..=usize::MAX, so `+` on them is translated CHECKED
                                     # (panics on overflow, the debug-profile meaning); counters derived from lengths stay unbounded
@@ -223,6 +224,13 @@ def has_ref(ty):
     return False
 
 
+# std methods / functions / macros that can allocate on the heap (C19: the zero-copy operations must not reach one)
+ALLOC_METHODS = {"to_string", "to_owned", "into_owned", "collect", "clone", "to_vec", "into_boxed_str", "into_string", "repeat", "join", "concat",
+                 "to_uppercase", "to_lowercase", "replace", "replacen", "into_bytes", "to_buf", "into_buf_owned"}
+ALLOC_CALLS = {"String::from", "Vec::with_capacity", "String::with_capacity", "Box::new", "String::from_utf8_unchecked", "Vec::from", "Rc::new", "Arc::new"}
+ALLOC_MUTATORS = {"push", "push_str", "insert", "insert_str", "extend_from_slice", "extend", "reserve", "split_off"}
+
+
 POINTER_ONLY = {"is_root", "count", "front", "back", "first", "last", "split_front", "split_back", "parent", "intersection"}
 MUTATORS = {"push", "extend_from_slice", "push_str", "insert", "insert_str", "pop", "clear", "split_off", "remove"}
 
@@ -262,6 +270,7 @@ class Unit:
         self.consts = {}        # name -> ast
         self.fns = {}           # (impl, name) -> coq name, param types, ret type   (generated so far)
         self.mut_self_fns = set()
+        self.alloc_sites = {}   # coq name -> number of allocation sites (transitively)
         self.lens_fns = set()   # functions taking references into a document: return (document afterwards, result)
 
     def ctor_list(self, ty):
@@ -669,6 +678,7 @@ class Emitter:
         if base == "count" and recv[0] == "mcall" and recv[2] == "tokens" and not args:           # p.tokens().count()
             return self.tr(recv[1], env, cx, lambda t, ty: k(f"(len (str_tokens {self.coerce(t, ty, 'str')}))", "N"))
         if base == "split_off" and len(args) == 1 and place_var(recv) in env:
+            cx.allocs += 1
             x = place_var(recv)
             sp = cx.fresh("sp")
             return self.tr(args[0], env, cx, lambda at, _: f"match str_split_at {x} {at} with Ret {sp} => let {x} := (fst {sp}) in {k(f'(snd {sp})', 'String')} | Panic => Panic | OutOfFuel => OutOfFuel end")
@@ -705,6 +715,8 @@ class Emitter:
         if base == "then_" and len(args) == 1 and args[0][0] == "closure":      # bool::then (`then` is mangled by the lexer)
             return self.tr(recv, env, cx, lambda bt, _: f"if {bt} then {self.apply_closure(args[0], [], env, cx, lambda t, ty: k(f'(Some {t})', ('opt', ty)))} else {k('None', ('opt', '?'))}")
         def after(rt, rty):
+            if base in ALLOC_METHODS and not (base == "clone" and rty != "String"):
+                cx.allocs += 1
             tyname = rty[1] if isinstance(rty, tuple) and rty[0] == "named" else None
             if tyname == "Token" and base == "try_into" and not args and ("IndexFromRefToken", "try_from") in self.u.fns:
                 # `token.try_into()` at type Result<Index, _>: impl TryFrom<&Token<'_>> for Index
@@ -909,6 +921,7 @@ class Emitter:
         return self.tr(recv, env, cx, after)
 
     def finish_call(self, key, coqname, a, rty, cx, k, env):
+        cx.allocs += self.u.alloc_sites.get(coqname, 0)
         v = cx.fresh("r")
         if key in self.u.lens_fns:
             # the callee may have written through the references it was given: take the document it returns, and treat every
@@ -939,6 +952,7 @@ class Emitter:
         if f[0] != "path": raise RsError("call of a non-path")
         segs = [re.sub(r"::<.*$", "", s) for s in f[1]]
         name = "::".join(segs)
+        if name in ALLOC_CALLS: cx.allocs += 1
         if name in ("Ok", "Err", "Some"):
             if len(args) != 1: raise RsError(f"{name} takes one argument")
             def mk(t, ty):
@@ -1057,6 +1071,7 @@ class Emitter:
             if ps.eat("if"): guard = ps.parse_expr()
             arms = [(pats, guard, ("bool", True)), ([("p_wild",)], None, ("bool", False))]
             return self.tr(scrut, env, cx, lambda t, ty: self.tr_arms(t, ty, arms, env, cx, k))
+        if name in ("vec", "format"): cx.allocs += 1
         if name == "vec":
             ps = Parser(list(toks) + [("punct", ")", -1)])
             items = []
@@ -1350,6 +1365,7 @@ class Emitter:
             raise RsError(f"assignment operator {op} not supported")
         if kind == "expr":
             e = s[1]
+            if e[0] == "mcall" and e[2] in ALLOC_MUTATORS: cx.allocs += 1
             if e[0] == "mcall" and e[2] in MUTATORS and place_var(e[1]) in env and e[2] not in ("split_off",) and not has_ref(env[place_var(e[1])][1]):
                 x = place_var(e[1])
                 if e[2] == "push" and is_str(env[x][1]):
@@ -1384,6 +1400,7 @@ class Emitter:
                     # a generated `&mut self` method: returns (self afterwards, result); the result is dropped here
                     r = cx.fresh("ms")
                     coqname, ptys, rty = self.u.fns[(tn, base_)]
+                    cx.allocs += self.u.alloc_sites.get(coqname, 0)
                     return self.tr_list(e[3], env, cx, lambda ts:
                         f"match {coqname} {x} {' '.join(self.coerce(t, ty, pty) for (t, ty), pty in zip(ts, ptys[1:]))} with "
                         f"Ret {r} => let {x} := (fst {r}) in {cont(env)} | Panic => Panic | OutOfFuel => OutOfFuel end")
@@ -1672,6 +1689,12 @@ def translate(repo, groups, types, fuel):
                 lines.append(f"(* {f}:{entry['lines'][0]}-{entry['lines'][1]}  {impl + '::' if impl else ''}{name} *)")
                 lines += cx.lifted
                 lines.append(f"Definition {coqname} {' '.join(binders)} : outcome {coq_ty(ret_ty)} :=\n{pretty(code)}.")
+                # the thunk / continuation duplication of the emitter can visit one source site several times: count distinct sites per
+                # function as `> 0` matters, not the number; still emitted as a number for the record
+                unit.alloc_sites[coqname] = cx.allocs
+                lines.append(f"(* heap-allocation sites reachable from the body (own std calls that can allocate + those of the generated functions it calls) *)\n"
+                             f"Definition {coqname}_alloc_sites : N := {cx.allocs}.")
+                entry["alloc_sites"] = cx.allocs
                 keys = [(t.get("self_ty", impl), name)] + ([(("mod", t["mod"]), name)] if t.get("mod") else [])
                 for key_ in keys:
                     unit.fns[key_] = (coqname, ptys, ret_ty)
